@@ -1,0 +1,11 @@
+//go:build verif
+
+package event
+
+// Contracts used by other packages' proofs. Building an event touches only the event itself.
+// (Functional contracts for the option constructors belong to property C05.)
+//
+//@ func New
+//@   trusted
+//@   nonnil
+//@   modifies nothing
